@@ -95,8 +95,10 @@ OrdersAreTheDomains == /\ {norder[i] : i \in 1..Len(norder)} = DOMAIN nodes /\ L
 NothingRemoved == [][DOMAIN nodes \subseteq DOMAIN nodes' /\ DOMAIN edges \subseteq DOMAIN edges'
                      /\ SubSeq(norder', 1, Len(norder)) = norder /\ SubSeq(eorder', 1, Len(eorder)) = eorder]_vars
 DeltaKeepsExistingNode == [][last'.op = "apply_deltas" => \A x \in DOMAIN nodes : nodes'[x] = nodes[x]]_vars
-EditsCountRecognised == last.op = "apply_deltas" =>
-                        last.edits = Cardinality({i \in 1..Len(last.batch) : last.batch[i].kind # 5})
+\* (an action property: `last` is hidden by the VIEW, and TLC evaluates state invariants only on states that are new
+\* under the view, but action properties on every transition)
+EditsCountRecognised == [][last'.op = "apply_deltas" =>
+                           last'.edits = Cardinality({i \in 1..Len(last'.batch) : last'.batch[i].kind # 5})]_vars
 
 View_ == <<nodes, edges, norder, eorder>>
 Emit == PrintT(<<"T", ToJson([pre |-> [nodes |-> nodes, edges |-> edges, norder |-> norder, eorder |-> eorder],
